@@ -72,6 +72,9 @@ const EXTRA_TOKENS: &[&[u8]] = &[
     b"+++ \"b/sp ace\"\n",
     b"@@ -3,0 +4 @@\n",
     b"@@ -5 +4,0 @@\n",
+    // a hunk without any line (both counts zero)
+    b"@@ -7,0 +7,0 @@\n",
+    b"@@ -7,0 +6,0 @@\n",
     b"@@ -2,2 +2,2 @@ fn\n",
     b" y\n",
     b"+y\n",
